@@ -16,18 +16,18 @@ MANIFEST = dict(
          "for every method and argument vector of region WF the single request carries the directive's verb, the path with every "
          "placeholder replaced by its alias-resolved argument, the query holding exactly the non-path scalars, struct fields and map "
          "entries under alias-or-name with nil pointers omitted, the struct argument as body for POST/PUT/PATCH, and the caller's context "
-         "(C06_request, C06_query, C06_placeholders, C06_body, C06_ctx, C06_one_request). Seven finding regions with witness theorems. "
+         "(C06_request, C06_query, C06_placeholders, C06_body, C06_ctx, C06_one_request). Five finding regions with witness theorems. "
          "Tied to the code by generating clients with the rebuilt `shoot rest` from random interfaces, compiling them and recording the "
          "requests they send through a recording RoundTripper for 3-4 argument vectors per method (nil pointers, URL-unsafe strings); the "
          "model's symbolic url.JoinPath / Values.Encode / Header.Add / json.Marshal are evaluated by the real functions.",
     note="Lean kernel + standard axioms. Proved at method level (directives parsed to their meaning -> request); the alias/headers "
          "recognisers and the interface-level glue (method collection, compile/format failures) are tied by the correspondence only. "
-         "Known findings: F_mixedCtx, F_bodyNoStruct, F_ptrDict, F_twoDicts, F_qualScalar, F_nilStructDeref, F_pathArgBrace.",
+         "Known findings: F_ptrDict, F_twoDicts, F_qualScalar, F_nilStructDeref, F_pathArgBrace (F_mixedCtx and F_bodyNoStruct were repaired in /repo).",
     technique="Lean 4 proof (induction over parameter lists, token lists, Go-map association lists) + differential model/implementation "
               "correspondence on generated, compiled and executed clients",
     design="5/C06")
 
-FINDING_REGIONS = ["F_mixedCtx", "F_bodyNoStruct", "F_ptrDict", "F_twoDicts", "F_qualScalar", "F_nilStructDeref", "F_pathArgBrace"]
+FINDING_REGIONS = ["F_ptrDict", "F_twoDicts", "F_qualScalar", "F_nilStructDeref", "F_pathArgBrace"]
 
 
 def make_case(cid, iface, calls):
@@ -56,11 +56,11 @@ def shaped(ctx, g):
     """one interface per finding region / model branch"""
     rng = ctx.rng
     out = []
-    # F_mixedCtx
+    # mixed ctx / ctx-less methods (was F_mixedCtx; repaired by 230b9e4: an ordinary WF shape now)
     i = g.iface(name="Client", nmethods=2, ctx=True)
     i["methods"][1]["ctx"] = None
     out.append(("mixedctx", i, calls_for(g, i, 1)))
-    # F_bodyNoStruct
+    # body verb without a struct parameter (was F_bodyNoStruct; repaired by de8bb02: WF, no body is sent)
     i = g.iface(name="Client", nmethods=2, ctx=True, struct=False)
     i["methods"][0]["verb"], i["methods"][0]["verbtext"] = "POST", "Post"
     i["methods"][1]["verb"], i["methods"][1]["verbtext"] = "GET", "Get"
